@@ -1,6 +1,6 @@
 // h_stable.cpp - C05: elements of node and pool containers never move while they live.
 // One mode per container type (list, map, multimap, hashmap, hashset, poollist, poolmap). A case is a long random history on two containers of
-// that type whose population oscillates between ~0 and a few hundred entries (free-slot reuse, 4-item block allocation, tree rotations and
+// that type whose population oscillates between ~0 and a few hundred entries (free-slot reuse, block allocation, tree rotations and
 // bucket-chain relinking all happen while old elements stay alive). For every entry the harness records at insertion time
 //     (key id, value id, address of the key, address of the value, the iterator returned by the insertion)
 // and keeps the records in container order. The recorded iterators - never fresh ones - are what later removals are made with.
@@ -12,6 +12,8 @@
 // PoolList / PoolMap hold non-copyable types (deleted copy operations) that remember their own address: exactly one construction per append, at
 // the address handed out, no construction or destruction of a stored object by any other operation.
 // List::sort is not part of the histories: it exchanges values between nodes and is neither an insertion nor a removal.
+// Every verdict uses the public API only. The single use of private library state (inside #ifndef VERIF_NO_PRIVATE; needs -fno-access-control) is
+// evidence without verdict: counters block_allocations / free_slot_reuses / root_changes. With -DVERIF_NO_PRIVATE these three counters are absent.
 #include "vh.hpp"
 #include <nstd/List.hpp>
 #include <nstd/Map.hpp>
@@ -165,6 +167,7 @@ template <> void World<TPoolList>::lookup(int, size_t) {}
 template <> void World<TPoolMap>::lookup(int ci, size_t idx) { R& rec = m[ci][idx]; It f = c[ci]->find(Elem(rec.k)); if (f != rec.it) fail(keyOf("lookup"), "find(%ld) does not return the stored iterator", rec.k); ++g_lookups; }
 
 // structural evidence (private members, no verdict): block allocations, free-slot reuse, root changes
+#ifndef VERIF_NO_PRIVATE
 template <class C> struct Sig { const void* blocks; const void* freeItem; const void* root; };
 template <class C> static const void* rootOf(C&) { return 0; }
 static const void* rootOf(Map<Elem, Elem>& c) { return c.root; }
@@ -176,6 +179,12 @@ template <class C> static void noteInsert(C& c, const Sig<C>& b, bool isNew) {
   if (rootOf(c) != b.root) cnt("root_changes");
 }
 template <class C> static void noteRemove(C& c, const Sig<C>& b) { if (rootOf(c) != b.root) cnt("root_changes"); }
+#else   // public API only: nothing to observe
+template <class C> struct Sig {};
+template <class C> static Sig<C> sigOf(C&) { return Sig<C>(); }
+template <class C> static void noteInsert(C&, const Sig<C>&, bool) {}
+template <class C> static void noteRemove(C&, const Sig<C>&) {}
+#endif
 
 // position bookkeeping for the keyed orders
 template <class R> static size_t lowerBound(const Vec<R>& m, long k) { size_t i = 0; while (i < m.n && m[i].k < k) ++i; return i; }
